@@ -552,6 +552,8 @@ def main(argv):
             body = '\n'.join(r['lines'][info.get('first_line', 1) - 1:info.get('last_line', 1)])
             if '@unreachable-by-contract' in body:
                 continue   # the function's precondition is *meant* to be unsatisfiable (documented in the unit)
+            if not fn_is_verified_here(r, fn):
+                continue   # verify-only (derived) unit: only the selected function is checked here
             if line not in failing_lines:
                 vac.append(f"canary in {short_fn(fn)} verified: contradictory precondition")
 
